@@ -79,6 +79,8 @@ pub struct Report {
 	pub evaluations: u64,
 	pub distinct: HashSet<u64>,
 	pub distinct_overflow: u64,
+	/// distinct cases counted by construction (enumerations that never repeat a case)
+	pub distinct_enumerated: u64,
 	pub counters: BTreeMap<String, u64>,
 	pub samples: Vec<String>,
 	pub violations: Vec<Violation>,
@@ -97,6 +99,7 @@ impl Report {
 			evaluations: 0,
 			distinct: HashSet::new(),
 			distinct_overflow: 0,
+			distinct_enumerated: 0,
 			counters: BTreeMap::new(),
 			samples: Vec::new(),
 			violations: Vec::new(),
@@ -205,7 +208,7 @@ impl Report {
 		jobj(&[
 			("prop", jstr(&self.prop)),
 			("evaluations", self.evaluations.to_string()),
-			("distinct_nontrivial", self.distinct.len().to_string()),
+			("distinct_nontrivial", (self.distinct.len() as u64 + self.distinct_enumerated).to_string()),
 			("distinct_uncounted_beyond_cap", self.distinct_overflow.to_string()),
 			("counters", counters),
 			("samples", samples),
